@@ -52,10 +52,18 @@ def rule_a(repo, chk):
     chk.ob('a', f.ref, 'lines end at LF or CRLF', pat_ok, loc(f, c), discr='separator')
     lv = None
     for n in walk_no_defs(f.node):
-        if isinstance(n, ast.Assign) and n.value is c:
+        if isinstance(n, ast.Assign) and n.value is c and isinstance(n.targets[0], ast.Name):
             lv = src(n.targets[0])
     rets = [n for n in walk_no_defs(f.node) if isinstance(n, ast.Return)]
     ok = bool(rets) and lv is not None and all(src(r.value).replace(' ', '') == f'({lv}[:-1],{lv}[-1])' for r in rets)
+    if lv is None:
+        # `*complete, remainder = SEP.split(…)`; `return complete, remainder`
+        for n in walk_no_defs(f.node):
+            if isinstance(n, ast.Assign) and n.value is c and isinstance(n.targets[0], ast.Tuple) and len(n.targets[0].elts) == 2 \
+                    and isinstance(n.targets[0].elts[0], ast.Starred) and isinstance(n.targets[0].elts[0].value, ast.Name) and isinstance(n.targets[0].elts[1], ast.Name):
+                a_, b_ = n.targets[0].elts[0].value.id, n.targets[0].elts[1].id
+                stores = [w for w in walk_no_defs(f.node) if isinstance(w, ast.Name) and isinstance(w.ctx, ast.Store) and w.id in (a_, b_)]
+                ok = bool(rets) and len(stores) == 2 and all(src(r.value).replace(' ', '') in (f'({a_},{b_})', f'{a_},{b_}') for r in rets)
     chk.ob('a', f.ref, 'all pieces but the last are lines; the last (unterminated) piece is the new carry', ok, loc(f, f.node), discr='last-retained')
     if len(c.args) > 1 or c.keywords:
         chk.ob('a', f.ref, 'the split is not limited (every line of the read is produced)', False, loc(f, c), discr='no-maxsplit')
@@ -71,6 +79,12 @@ def rule_b(repo, chk):
         c = n.ast.value
         args = [src(a) for a in c.args]
         tg = [src(t) for t in n.ast.targets[0].elts] if isinstance(n.ast.targets[0], ast.Tuple) else []
+        # the carry argument, seen through a local (`pending = self.getBuffer(sock); … self.splitter(data, pending)`)
+        if len(c.args) == 2 and isinstance(c.args[1], ast.Name):
+            defs = Q.reaching_defs(g, n, c.args[1].id)
+            vals = {src(d.ast.value) for d in defs if d.kind == 'stmt' and isinstance(d.ast, ast.Assign) and len(d.ast.targets) == 1 and isinstance(d.ast.targets[0], ast.Name)}
+            if len(defs) == 1 and len(vals) == 1:
+                args[1] = vals.pop()
         server = any('getBuffer' in a for a in args)
         if not server:
             ok = len(args) == 2 and args[1] == 'self.buffer' and len(tg) == 2 and tg[1] == 'self.buffer'
@@ -190,7 +204,8 @@ def rule_c_d(repo, chk):
     ok = isinstance(tmpl, str) and tmpl.endswith('\r\n') and tmpl.count('\r') == 1 and tmpl.count('\n') == 1
     chk.ob('d', st.ref, 'the line template ends with exactly one CRLF and contains no other line break', ok, loc(st, fmt), detail=repr(tmpl), discr='one-crlf')
     # constants mixed into the line (prefix colon, separators) contain no line breaks
-    consts = [n.value for n in ast.walk(st.node) if isinstance(n, ast.Constant) and isinstance(n.value, str) and n.value != tmpl]
+    own = {id(v) for v in fmt.values} if isinstance(fmt, ast.JoinedStr) else set()       # the literal pieces of the template itself
+    consts = [n.value for n in ast.walk(st.node) if isinstance(n, ast.Constant) and isinstance(n.value, str) and n.value != tmpl and id(n) not in own]
     chk.ob('d', st.ref, 'no other constant of the serialiser contains a line break', not any('\r' in c or '\n' in c for c in consts), loc(st, st.node),
            discr='no-other-breaks')
 
@@ -228,19 +243,38 @@ def rule_parse(repo, chk):
     f = repo.func('circuits/protocols/irc/utils.py', 'parsemsg')
     chk.touch(f)
     sv = f.params[0]
+    # the trailing argument: second result of `s.split(' :', 1)` or third of `s.partition(' :')`
+    tv, form, sepv = None, None, None
+    for n in walk_no_defs(f.node):
+        if isinstance(n, ast.Assign) and isinstance(n.value, ast.Call) and isinstance(n.targets[0], ast.Tuple) and all(isinstance(x, ast.Name) for x in n.targets[0].elts):
+            v = src(n.value).replace('"', "'")
+            if v == f"{sv}.split(' :', 1)" and len(n.targets[0].elts) == 2:
+                tv, form = n.targets[0].elts[1].id, 'split'
+            elif v == f"{sv}.partition(' :')" and len(n.targets[0].elts) == 3:
+                tv, form, sepv = n.targets[0].elts[2].id, 'partition', n.targets[0].elts[1].id
     strips = []
     for c in calls_in(f.node):
         if isinstance(c.func, ast.Attribute) and c.func.attr in ('strip', 'rstrip', 'lstrip'):
             recv = src(c.func.value)
-            if recv == sv or recv == 'trailing' or recv.startswith(sv + '.'):
+            if recv == sv or recv == tv or recv.startswith(sv + '.'):
                 only_eol = c.func.attr == 'rstrip' and len(c.args) == 1 and isinstance(c.args[0], ast.Constant) and set(c.args[0].value) <= set('\r\n')
                 if not only_eol:
                     strips.append(c)
     chk.ob('f', f.ref, 'the line and its trailing argument are not stripped of anything but a line terminator', not strips, loc(f, (strips or [f.node])[0]),
            detail='; '.join(src(c) for c in strips), discr='no-strip')
-    sp = [n for n in walk_no_defs(f.node) if isinstance(n, ast.Assign) and isinstance(n.value, ast.Call) and src(n.value).replace('"', "'") == f"{sv}.split(' :', 1)"]
-    ok = bool(sp) and isinstance(sp[0].targets[0], ast.Tuple) and src(sp[0].targets[0].elts[1]) == 'trailing'
-    app = any(isinstance(c.func, ast.Attribute) and c.func.attr == 'append' and [src(a) for a in c.args] == ['trailing'] for c in calls_in(f.node))
+    ok = tv is not None
+    g = f.cfg()
+    apps = [n for n in g.nodes if n.kind == 'stmt' and any([src(a) for a in c.args] == [tv] for _r, c in pat.method_calls(n.ast, 'append'))]
+    app = bool(apps)
+    if form == 'partition' and app:
+        # with partition the trailing argument exists iff the separator was found: appended exactly under that test
+        sep_T = pat.test_edge(lambda tt, pol: (pol == 'T' and src(tt) == sepv) or pat.fact_matches(pat.compare_fact(tt, pol), sepv, ('!=',), "''"))
+        app = all(pat.guarded_by(g, n, sep_T) is None for n in apps)
+        found = [e for n in g.nodes if n.kind == 'test' for e in n.succ if sep_T(e)]
+        app = app and bool(found) and all(e.dst in apps or Q.escapes(g, [e.dst], lambda n: n in apps) is None for e in found)
+    # the trailing text is not re-bound between the split and the append
+    stores = [w for w in walk_no_defs(f.node) if isinstance(w, ast.Name) and isinstance(w.ctx, ast.Store) and w.id == tv]
+    app = app and len([w for w in stores]) <= (2 if form == 'split' else 1)
     chk.ob('f', f.ref, 'the trailing argument is everything after the first " :" and becomes the last argument as it is', ok and app, loc(f, f.node), discr='trailing-verbatim')
     m = repo.func(IRC_MESSAGE, 'Message.from_string')
     chk.touch(m)
